@@ -563,11 +563,40 @@ fn main() {
             let built: Vec<Built> = specs.iter().map(|s| w.build(s)).collect();
             let (hid, h) = w.declare_hash(&built.iter().collect::<Vec<_>>());
             let del = delivery(&mut rng, n, DATA_SHREDS, None);
-            for (s, i) in &del {
-                w.feed(&built[*s].shreds[*i], None);
-            }
             let fp = final_parent(&specs);
             let exp_block = format!("block {hid} {}:{}", fp.0, fp.1);
+            // every step exactly as `honest_step_exact` / `honest_block_timely` say, recounted here on
+            // the implementation: Duplicate iff this very shred was stored or its slice already had 32
+            // distinct shreds; Block returned and announced in exactly the step in which, for the first
+            // time, every slice has 32 distinct shreds; FirstShred in the first step only
+            let mut seen: Vec<std::collections::HashSet<usize>> = vec![Default::default(); n];
+            let mut step_bad: Option<String> = None;
+            for (k, (s, i)) in del.iter().enumerate() {
+                let enough_before = seen.iter().all(|v| v.len() >= DATA_SHREDS);
+                let dup_exp = seen[*s].contains(i) || seen[*s].len() >= DATA_SHREDS;
+                let nev = w.events.len();
+                let r = w.feed(&built[*s].shreds[*i], None);
+                seen[*s].insert(*i);
+                let enough_after = seen.iter().all(|v| v.len() >= DATA_SHREDS);
+                let now = !enough_before && enough_after;
+                let exp = if dup_exp { "dup".to_string() } else if now { exp_block.clone() } else { "none".to_string() };
+                let mut exp_ev: Vec<String> = vec![];
+                if k == 0 {
+                    exp_ev.push("first".to_string());
+                }
+                if now {
+                    exp_ev.push(exp_block.clone());
+                }
+                if (r != exp || w.events[nev..] != exp_ev[..]) && step_bad.is_none() {
+                    step_bad = Some(format!(
+                        "step {k} (slice {s}, shred {i}, {} distinct of it before): returned `{r}` with events {:?}, expected `{exp}` with {:?}; {n} slices",
+                        seen[*s].len() - 1,
+                        &w.events[nev..],
+                        exp_ev
+                    ));
+                }
+            }
+            w.rec.oracle(step_bad.is_none(), "honest-step-exact", || step_bad.clone().unwrap_or_default());
             let nfirst = w.count_ev("first");
             w.rec.oracle(w.events.first().map(String::as_str) == Some("first") && nfirst == 1, "honest-first-shred-once", || {
                 format!("FirstShred events: {} (first event {:?}); {n} slices, delivery {:?}", nfirst, w.events.first(), &del[..del.len().min(12)])
